@@ -72,7 +72,11 @@ def check(prog, run):
                 if set(tol) & (names | exp_names):
                     tests.append(n)
         if not tests:
-            ob("R-neighbour", "tolerance test", False, "no test against err_fn/err_xi/err_phi found in SC_apply", "missing")
+            # the tolerances may be compared elsewhere (handed to a helper, used in a vectorised mask): only their complete absence from
+            # the function is a definite defect
+            used = {x.id for x in ast.walk(fi.node) if isinstance(x, ast.Name) and isinstance(x.ctx, ast.Load)} & set(tol)
+            ob("R-neighbour", "tolerance test", False if not used else None,
+               "no test against err_fn/err_xi/err_phi found in SC_apply" + ("" if not used else f" itself; {sorted(used)} are used in a form that was not recognised"), "missing")
             return
         ifn = tests[0]
         test = ifn.test
